@@ -203,6 +203,9 @@ func (e *Env) StandardRoots(types []Named) []*Root {
 		{"bool", idl.T(idl.Bool), idl.VB(true)}, {"byte", idl.T(idl.Byte), idl.VI(7)}, {"i16", idl.T(idl.I16), idl.VI(-3)}, {"i32", i32, idl.VI(100)}, {"i64", idl.T(idl.I64), idl.VI(1 << 40)},
 		{"double", idl.T(idl.Double), idl.VD(2.5)}, {"string", idl.T(idl.String), idl.VS("dflt")}, {"binary", idl.T(idl.Binary), idl.VS("bin")}, {"enum", idl.EnumT(e.E), idl.VE(e.E, e.E.Values[1])},
 		{"list", idl.ListOf(i32), idl.VL(idl.VI(1), idl.VI(2))}, {"map", idl.MapOf(idl.T(idl.String), i32), idl.VM([2]*idl.Value{idl.VS("k"), idl.VI(1)})},
+		// a struct-literal default: the field is already non-nil before anything is read into it
+		// (every field of InnerD is named: what a struct literal does with fields it does not name is not at issue here)
+		{"struct", idl.StructT(e.InnerD), idl.VM([2]*idl.Value{idl.VS("a"), idl.VI(5)}, [2]*idl.Value{idl.VS("q"), idl.VI(9)}, [2]*idl.Value{idl.VS("s"), idl.VS("zz")}, [2]*idl.Value{idl.VS("d"), idl.VI(6)})},
 	}
 	if e.OnlyDefaultRoots {
 		roots = nil
